@@ -624,6 +624,15 @@ pub fn run_hist<'p>(
                 fails.push(("C14".into(), "a prediction with the original or the deserialised predictor panicked".into()));
             }
         }
+        "c18" => {
+            let all: Vec<&str> = ops.split(',').collect();
+            for (i, o) in out.iter().enumerate() {
+                if o == "panic" || o.contains("!panic") || o.contains("!ub") {
+                    fails.push(("C18".into(), format!("operation {i} ({}) panicked in the debug-assertion build: {}", all.get(i).copied().unwrap_or("?"), &o[..o.len().min(120)])));
+                    break;
+                }
+            }
+        }
         "c02" => oracle_c02(&s, fails),
         "c03rt" => oracle_c03rt(&s, fails),
         "c03idem" => {
